@@ -21,7 +21,7 @@ from .c05 import run_worker_cases
 PROP = "C11"
 MODULES = ["XpmVerif.Properties.C11"]
 RULE = ("(1) random workloads (<= 5 jobs, <= 2 in-memory tokens, duplicates, failing bodies, initial success markers) x random schedules of scheduler "
-        "events and job-process moves with up to 2 scheduler deaths (crash at any step, or inside aio_run between spawn and pid file), compared event by "
+        "events and job-process moves with up to 2 scheduler deaths (crash at any step, inside prepare() with the script left absent/broken/ready, or inside aio_run between spawn and pid file), compared event by "
         "event with the Lean model; non-trivial = at least one death with a job process alive or a marker present at that moment; "
         "(2) real experiments: 3 small DAGs (chain, fork with token, token at capacity) x phases (before the first launch, while a job runs, between "
         "dependent jobs, while a token is held, inside prepare() after params.json / after the script before chmod / before the spawn, inside aio_run after the spawn, "
